@@ -156,10 +156,31 @@ def coq_make(targets, timeout=1500, jobs=16):
     return so
 
 
-def coq_audit():
-    """No Admitted/admit/Axiom/Parameter/... anywhere in the development."""
+def coq_closure(roots):
+    """transitive TX-internal dependencies of the given .v files (relative to coq/)"""
+    seen, todo = [], list(roots)
+    while todo:
+        f = todo.pop()
+        if f in seen or not os.path.exists(os.path.join(COQ, f)):
+            continue
+        seen.append(f)
+        txt = re.sub(r"\(\*.*?\*\)", "", open(os.path.join(COQ, f)).read(), flags=re.S)
+        for m in re.finditer(r"From\s+TX\s+Require\s+(?:Import\s+|Export\s+)?([^.]*(?:\.[A-Za-z_][^.]*)*)\.\s", txt):
+            for mod in m.group(1).split():
+                todo.append(mod.replace(".", "/") + ".v")
+        for m in re.finditer(r"Require\s+(?:Import\s+|Export\s+)?((?:TX\.[\w.]+\s*)+)\.", txt):
+            for mod in m.group(1).split():
+                todo.append(mod[3:].replace(".", "/") + ".v")
+    return sorted(seen)
+
+
+def coq_audit(prop=None):
+    """No Admitted/admit/Axiom/Parameter/... in the development this property depends on
+    (whole development when prop is None)."""
     bad = []
-    for f in coq_files():
+    files = coq_files() if prop is None else coq_closure(
+        ["Properties/%s.v" % prop, "Corr/%s.v" % prop, "Extract/%s.v" % prop, "Proofs/Side%s.v" % prop])
+    for f in files:
         txt = open(os.path.join(COQ, f)).read()
         txt = re.sub(r"\(\*.*?\*\)", "", txt, flags=re.S)
         for i, line in enumerate(txt.splitlines(), 1):
